@@ -116,7 +116,12 @@ impl Project {
     fn shape(self) -> Shape {
         match self {
             Project::Individuals(individuals) => {
-                Shape(individuals.into_iter().map(|i| 2 * i + 1).collect())
+                Shape(
+                individuals
+                    .into_iter()
+                    .map(|i| i.saturating_mul(2).saturating_add(1))
+                    .collect(),
+            )
             }
             Project::Shape(shape) => shape,
         }
